@@ -462,6 +462,11 @@ class _Demote:
                 self.chk.ok(rule, 'structural::' + instance, **{a: b for a, b in k.items() if a in ('file', 'line', 'func', 'expected', 'found', 'detail', 'nontrivial')})
             return cond
         return self.chk.check(cond, rule, instance, **k)
+    def anchor(self, cond, rule, instance, **k):
+        self._inst = instance
+        if rule in self.confirm:
+            return self.check(cond, rule, instance, **k)
+        return self.chk.anchor(cond, rule, instance, **k)
     def ok(self, rule, instance, **k):
         self._inst = instance
         self.chk.ok(rule, ('structural::' + instance) if rule in self.confirm else instance, **k)
